@@ -335,6 +335,7 @@ def run_tree_regression(arg, taxa):
             tree_offset=0,
             preserve_underscores=True,
             taxon_namespace=taxon_namespace,
+            rooting="force-rooted",
         )
     else:
         tree = Tree.get(
@@ -343,6 +344,7 @@ def run_tree_regression(arg, taxa):
             tree_offset=0,
             preserve_underscores=True,
             taxon_namespace=taxon_namespace,
+            rooting="force-rooted",
         )
     tree.resolve_polytomies(update_bipartitions=True)
     setup_indexes(tree, False)
